@@ -118,20 +118,11 @@ def sources_dedented(ctx: Ctx, rule: str) -> int:
                 rep.ok(rule, f.qname, desc, f.loc(call))
     return n
 
-def run(ctx: Ctx) -> None:
+def composer_components(ctx: Ctx, rule: str, floor: int = 14) -> None:
+    """every component of a signature (body text, arguments, calls, dependencies, tracked variables) reaches the combined pair list, and every call site of the
+    composer hands over components that derive from their producers - no literal empty value"""
     rep = ctx.report
     prog = ctx.prog
-    from .roles import path_map_field as _pmf_role
-    _pmf1 = _pmf_role(ctx)
-    ctx.types
-    top, nested = find_api_functions(ctx)
-    rep.rule("C01.R1", "composer: every parameter reaches the pair list; call sites: every component derives from its producer")
-    rep.rule("C01.R2", "visitors: generic_visit on every normal path; only value binders are local variables")
-    rep.rule("C01.R3", "call-site context slice bound depends on the call node's end line")
-    rep.rule("C01.R4", "abstract evaluation of the tracked-type classifier over the hasher's type tags")
-    rep.rule("C01.R5", "memo protocol key / value identity in both API functions")
-    rep.rule("C01.R6", "every `return None` of the name resolver is dominated by `name not in module.__dict__`")
-
     # ---- R1 -------------------------------------------------------------------------------
     comp = composer(ctx)
     commut = [n for n in comp.own_nodes() if isinstance(n, ast.Call) and (prog.dotted(comp, n.func) or "").endswith("dds_hash_commut")]
@@ -143,9 +134,9 @@ def run(ctx: Ctx) -> None:
         n1 += 1
         desc = f"composer parameter `{p}` ({COMPONENTS.get(p, ('?',))[0]}) reaches the combined pair list"
         if sl.has_param(comp, p) is not None or any(isinstance(x, ast.Name) and x.id == p for _, nd in sl.nodes() for x in ast.walk(nd)):
-            rep.ok("C01.R1", comp.qname, desc, comp.loc())
+            rep.ok(rule, comp.qname, desc, comp.loc())
         else:
-            rep.bad("C01.R1", comp.qname, desc, comp.loc(), [f"`{p}` is not used on the way to `{unparse(commut[-1], 40)}`: two programs that differ only in {COMPONENTS.get(p, ('it',))[0]} share a key"],
+            rep.bad(rule, comp.qname, desc, comp.loc(), [f"`{p}` is not used on the way to `{unparse(commut[-1], 40)}`: two programs that differ only in {COMPONENTS.get(p, ('it',))[0]} share a key"],
                     f"unused:{p}", what=f"{COMPONENTS.get(p, (p,))[0]} is not part of the signature")
     # call sites
     for f in prog.funcs.values():
@@ -165,19 +156,19 @@ def run(ctx: Ctx) -> None:
                 what, pred = COMPONENTS[cname]
                 desc = f"{role} of {f.name}: {what} derive from their producer"
                 if a is None:
-                    rep.bad("C01.R1", f.qname, desc, f.loc(n), [f"component `{cname}` is not passed"], f"{f.name}:{cname}:missing", what=f"{what} are not part of the {role}")
+                    rep.bad(rule, f.qname, desc, f.loc(n), [f"component `{cname}` is not passed"], f"{f.name}:{cname}:missing", what=f"{what} are not part of the {role}")
                     continue
                 if (isinstance(a, (ast.Dict, ast.List)) and not (a.keys if isinstance(a, ast.Dict) else a.elts)) or (isinstance(a, ast.Constant) and a.value is None):
-                    rep.bad("C01.R1", f.qname, desc, f.loc(n), [f"{f.loc(n)}: `{cname}={unparse(a)}` is a literal empty value",
+                    rep.bad(rule, f.qname, desc, f.loc(n), [f"{f.loc(n)}: `{cname}={unparse(a)}` is a literal empty value",
                             "a nested dds.keep with run-time arguments is identified by this context: it keeps its key when " + what + " change, and the stale blob is served"],
                             f"{f.name}:{cname}:empty", what=f"{what} are dropped from the {role}")
                     continue
                 s2 = ctx.slicer(follow_calls=True, follow_callers=(cname == "body_sig"), through_records=True).slice(f, a)
                 text = " ".join(unparse(x, 200) for _, x in s2.nodes())
                 if pred(text):
-                    rep.ok("C01.R1", f.qname, desc, f.loc(n))
+                    rep.ok(rule, f.qname, desc, f.loc(n))
                 else:
-                    rep.bad("C01.R1", f.qname, desc, f.loc(n), [f"`{cname}={unparse(a, 40)}` does not derive from its producer; slice: {text[:200]}"], f"{f.name}:{cname}:producer",
+                    rep.bad(rule, f.qname, desc, f.loc(n), [f"`{cname}={unparse(a, 40)}` does not derive from its producer; slice: {text[:200]}"], f"{f.name}:{cname}:producer",
                             what=f"{what} in the {role} do not come from the analysis of the function")
     # class composer
     ic = prog.func("dds.introspect.InspectFunction.inspect_class")
@@ -187,10 +178,92 @@ def run(ctx: Ctx) -> None:
         text = unparse(cm[0], 400) if cm else ""
         desc = "class signature combines the class body text and the interactions of every method"
         if cm and "body_sig" in text and "method_fis" in text:
-            rep.ok("C01.R1", ic.qname, desc, ic.loc(cm[0]))
+            rep.ok(rule, ic.qname, desc, ic.loc(cm[0]))
         else:
-            rep.bad("C01.R1", ic.qname, desc, ic.loc(), [f"combined: {text}"], "class-composer", what="class signature misses the body or the method interactions")
-    rep.floor("C01.R1", n1, 14)
+            rep.bad(rule, ic.qname, desc, ic.loc(), [f"combined: {text}"], "class-composer", what="class signature misses the body or the method interactions")
+    rep.floor(rule, n1, floor)
+
+
+
+
+
+def pairs_distinct(ctx: Ctx, rule: str) -> int:
+    """every literal list of (constant key, value) pairs handed to the order-insensitive combiner holds pairwise different values, and every hash computed
+    in a function of the introspection is used"""
+    rep = ctx.report
+    prog = ctx.prog
+    n11 = 0
+    for f in prog.funcs.values():
+        if f.module.name not in ("dds.introspect", "dds._introspect_indirect"):
+            continue
+        for n in f.own_nodes():
+            if isinstance(n, ast.Call) and (prog.dotted(f, n.func) or "").endswith("dds_hash_commut") and n.args:
+                def alts(e: ast.AST, depth: int = 0) -> List[List[str]]:
+                    """the value names of the (key, value) pairs, per alternative way of building the list"""
+                    if isinstance(e, ast.List):
+                        return [[unparse(x.elts[1]) for x in e.elts if isinstance(x, ast.Tuple) and len(x.elts) == 2 and isinstance(x.elts[1], ast.Name)]]
+                    if isinstance(e, ast.BinOp) and isinstance(e.op, ast.Add):
+                        return [a + b for a in alts(e.left, depth) for b in alts(e.right, depth)][:16]
+                    if isinstance(e, ast.IfExp):
+                        return (alts(e.body, depth) + alts(e.orelse, depth))[:16]
+                    if isinstance(e, ast.Name) and depth < 2:
+                        # a list built beforehand: its literal definition(s), then the pairs appended to it in this function
+                        base: List[List[str]] = []
+                        extra: List[str] = []
+                        for st in f.own_nodes():
+                            if isinstance(st, (ast.Assign, ast.AnnAssign)) and st.value is not None and any(
+                                    isinstance(t, ast.Name) and t.id == e.id for t in (st.targets if isinstance(st, ast.Assign) else [st.target])):
+                                base += alts(st.value, depth + 1)
+                            elif isinstance(st, ast.Call) and isinstance(st.func, ast.Attribute) and st.func.attr in ("append", "insert") \
+                                    and isinstance(st.func.value, ast.Name) and st.func.value.id == e.id and st.args and isinstance(st.args[-1], ast.Tuple) \
+                                    and len(st.args[-1].elts) == 2 and isinstance(st.args[-1].elts[1], ast.Name):
+                                extra.append(unparse(st.args[-1].elts[1]))
+                        return [b + extra for b in (base or [[]])][:16]
+                    return [[]]
+
+                alternatives = alts(n.args[0])
+                names = max(alternatives, key=len) if alternatives else []
+                for al in alternatives:
+                    if any(al.count(x) > 1 for x in al):
+                        names = al
+                if len(names) < 2:
+                    continue
+                n11 += 1
+                dup = sorted({x for x in names if names.count(x) > 1})
+                desc = f"the {len(names)} components of `{unparse(n, 40)}` are distinct values"
+                if dup:
+                    fl_ = flow_of(prog, f)
+                    unused = []
+                    for st in f.own_nodes():
+                        if isinstance(st, ast.Assign) and len(st.targets) == 1 and isinstance(st.targets[0], ast.Name) and isinstance(st.value, ast.Call) and "hash" in unparse(st.value.func):
+                            v_ = st.targets[0].id
+                            if not any(isinstance(y, ast.Name) and y.id == v_ and isinstance(y.ctx, ast.Load) for y in f.own_nodes()):
+                                unused.append(f"{f.loc(st)}: `{v_}` is computed and never used")
+                    rep.bad(rule, f.qname, desc, f.loc(n), [f"{f.loc(n)}: `{d}` is given under two different keys" for d in dup] + unused + [
+                        "the component that is missing no longer influences this key: a nested dds.keep whose run-time argument comes from an earlier call keeps its key when that "
+                        "call's dependencies change, and serves the stale blob"], stmt_key(n), what="a component of a signature is written twice and another one is dropped")
+                else:
+                    rep.ok(rule, f.qname, desc, f.loc(n))
+    return n11
+
+
+def run(ctx: Ctx) -> None:
+    rep = ctx.report
+    prog = ctx.prog
+    from .roles import path_map_field as _pmf_role
+    _pmf1 = _pmf_role(ctx)
+    ctx.types
+    top, nested = find_api_functions(ctx)
+    rep.rule("C01.R1", "composer: every parameter reaches the pair list; call sites: every component derives from its producer")
+    rep.rule("C01.R2", "visitors: generic_visit on every normal path; only value binders are local variables")
+    rep.rule("C01.R3", "call-site context slice bound depends on the call node's end line")
+    rep.rule("C01.R4", "abstract evaluation of the tracked-type classifier over the hasher's type tags")
+    rep.rule("C01.R5", "memo protocol key / value identity in both API functions")
+    rep.rule("C01.R6", "every `return None` of the name resolver is dominated by `name not in module.__dict__`")
+
+    # ---- R1 -------------------------------------------------------------------------------
+    composer_components(ctx, "C01.R1")
+    comp = composer(ctx)
 
     # ---- R2 -------------------------------------------------------------------------------
     n2 = visitors.traversal_complete(ctx, "C01.R2")
@@ -411,6 +484,17 @@ def run(ctx: Ctx) -> None:
                         "(`if cond: def f(): ..`) has an indented source, and parsing it as it stands raises IndentationError where plain execution returns a value")
     n19 = sources_dedented(ctx, "C01.R19")
     rep.floor("C01.R19", n19, 4)
+    from .common import forwarding_complete
+    rep.rule("C01.R21", "the public entry points, the decorators' wrappers and the internal API hand over the user's `*args` and `**kwargs` together: no argument is dropped between the "
+                        "user's call and the binder / the user function")
+    n21 = forwarding_complete(ctx, "C01.R21", "`@dds.dds_function('/p') def scaled(base, factor=2)`: scaled(10, factor=5) is keyed and evaluated as scaled(10): the result for the default "
+                                             "factor is returned, where plain execution returns the result for factor=5")
+    rep.floor("C01.R21", n21, 4)
+    from .c13 import pair_values_rule
+    rep.rule("C01.R20", "in the signature composer the entries built from a mapping (dependencies by path, external dependencies by name) hash the mapping's VALUE - the signature / "
+                        "canonical path the name stands for - not the key a second time")
+    n20 = pair_values_rule(ctx, "C01.R20")
+    rep.floor("C01.R20", n20, 2)
     from .c09 import previous_covers_loads
     rep.rule("C01.R17", "as C09.R16: the call-site context of a kept call covers the paths loaded before the call (their values can be its run-time arguments)")
     n17 = previous_covers_loads(ctx, "C01.R17")
@@ -431,58 +515,7 @@ def run(ctx: Ctx) -> None:
     # ---- R11 / R12 --------------------------------------------------------------------------------------------------------
     rep.rule("C01.R11", "every literal list of (constant key, value) pairs handed to the order-insensitive combiner holds pairwise different values, and every hash "
                         "computed in a function of the introspection is used (a component written twice means another one is missing)")
-    n11 = 0
-    for f in prog.funcs.values():
-        if f.module.name not in ("dds.introspect", "dds._introspect_indirect"):
-            continue
-        for n in f.own_nodes():
-            if isinstance(n, ast.Call) and (prog.dotted(f, n.func) or "").endswith("dds_hash_commut") and n.args:
-                def alts(e: ast.AST, depth: int = 0) -> List[List[str]]:
-                    """the value names of the (key, value) pairs, per alternative way of building the list"""
-                    if isinstance(e, ast.List):
-                        return [[unparse(x.elts[1]) for x in e.elts if isinstance(x, ast.Tuple) and len(x.elts) == 2 and isinstance(x.elts[1], ast.Name)]]
-                    if isinstance(e, ast.BinOp) and isinstance(e.op, ast.Add):
-                        return [a + b for a in alts(e.left, depth) for b in alts(e.right, depth)][:16]
-                    if isinstance(e, ast.IfExp):
-                        return (alts(e.body, depth) + alts(e.orelse, depth))[:16]
-                    if isinstance(e, ast.Name) and depth < 2:
-                        # a list built beforehand: its literal definition(s), then the pairs appended to it in this function
-                        base: List[List[str]] = []
-                        extra: List[str] = []
-                        for st in f.own_nodes():
-                            if isinstance(st, (ast.Assign, ast.AnnAssign)) and st.value is not None and any(
-                                    isinstance(t, ast.Name) and t.id == e.id for t in (st.targets if isinstance(st, ast.Assign) else [st.target])):
-                                base += alts(st.value, depth + 1)
-                            elif isinstance(st, ast.Call) and isinstance(st.func, ast.Attribute) and st.func.attr in ("append", "insert") \
-                                    and isinstance(st.func.value, ast.Name) and st.func.value.id == e.id and st.args and isinstance(st.args[-1], ast.Tuple) \
-                                    and len(st.args[-1].elts) == 2 and isinstance(st.args[-1].elts[1], ast.Name):
-                                extra.append(unparse(st.args[-1].elts[1]))
-                        return [b + extra for b in (base or [[]])][:16]
-                    return [[]]
-
-                alternatives = alts(n.args[0])
-                names = max(alternatives, key=len) if alternatives else []
-                for al in alternatives:
-                    if any(al.count(x) > 1 for x in al):
-                        names = al
-                if len(names) < 2:
-                    continue
-                n11 += 1
-                dup = sorted({x for x in names if names.count(x) > 1})
-                desc = f"the {len(names)} components of `{unparse(n, 40)}` are distinct values"
-                if dup:
-                    fl_ = flow_of(prog, f)
-                    unused = []
-                    for st in f.own_nodes():
-                        if isinstance(st, ast.Assign) and len(st.targets) == 1 and isinstance(st.targets[0], ast.Name) and isinstance(st.value, ast.Call) and "hash" in unparse(st.value.func):
-                            v_ = st.targets[0].id
-                            if not any(isinstance(y, ast.Name) and y.id == v_ and isinstance(y.ctx, ast.Load) for y in f.own_nodes()):
-                                unused.append(f"{f.loc(st)}: `{v_}` is computed and never used")
-                    rep.bad("C01.R11", f.qname, desc, f.loc(n), [f"{f.loc(n)}: `{d}` is given under two different keys" for d in dup] + unused + [
-                        "the component that is missing no longer influences this key: a nested dds.keep whose run-time argument comes from an earlier call keeps its key when that "
-                        "call's dependencies change, and serves the stale blob"], stmt_key(n), what="a component of a signature is written twice and another one is dropped")
-                else:
-                    rep.ok("C01.R11", f.qname, desc, f.loc(n))
+    n11 = pairs_distinct(ctx, "C01.R11")
     rep.floor("C01.R11", n11, 1)
     rep.rule("C01.R12", "as C05.R1-R9: the value hasher is total and injective on what it supports (a lossy encoding of a module variable or an argument keeps the signature when the value changes)")
     from . import c05 as _c05
